@@ -377,6 +377,9 @@ type Op struct {
 	Alg      string `json:"alg"`
 	Corrupt  string `json:"corrupt"` // "" valid | header | truncate | checksum | garbage | wrongalg
 	Size     int    `json:"size"`
+	// Overlap (valid ops only): run TWO valid calls so that the second runs
+	// completely while the first is paused in the middle of decompressing.
+	Overlap bool `json:"overlap,omitempty"`
 }
 
 type HistCase struct {
@@ -404,6 +407,9 @@ func corrupt(kind, alg string, z []byte, raw []byte) []byte {
 		return out
 	case "garbage":
 		return append(append([]byte(nil), z...), []byte("trailing garbage!")...)
+	case "oversize":
+		// valid stream, but it decompresses to more than the handler's read limit
+		return comp.Compress(alg, refwire.EncodePing("proto", 1, strings.Repeat("z", 300000)))
 	case "wrongalg":
 		other := "zlib"
 		if alg == "zlib" {
@@ -416,14 +422,15 @@ func corrupt(kind, alg string, z []byte, raw []byte) []byte {
 
 func checkHist(tt *testing.T, c HistCase) (pbt.Info, error) {
 	var info pbt.Info
-	algs := []string{"deflate", "zlib", "toy"}
+	algs := []string{"deflate", "zlib", "toy", "gzip"} // gzip re-registered: harness-provided, pausable
+	defer comp.DisarmGate()
 	resp := prog.Msg{N: 1, TLen: 50, TSeed: 1001}
 	log := &prog.HLog{}
-	h := prog.NewHandler(prog.Client, &prog.HandlerProg{Drain: true, Resp: &resp, PropagateRecvErr: true}, log, prog.Config{HComp: algs}.HandlerOptions()...)
+	h := prog.NewHandler(prog.Client, &prog.HandlerProg{Drain: true, Resp: &resp, PropagateRecvErr: true}, log, prog.Config{HComp: algs, HReadMax: 100000}.HandlerOptions()...)
 	clients := map[string]*connect.Client[pingv1.PingRequest, pingv1.PingResponse]{}
 	holder := &switchClient{}
 	for _, p := range prog.Protocols {
-		cfg := prog.Config{Protocol: p, Codec: "proto", Kind: prog.Server, CAccept: algs}
+		cfg := prog.Config{Protocol: p, Codec: "proto", Kind: prog.Server, CAccept: algs, CReadMax: 100000}
 		clients[p] = connect.NewClient[pingv1.PingRequest, pingv1.PingResponse](holder, prog.BaseURL+prog.Procedure(prog.Server), cfg.ClientOptions()...)
 	}
 	afterCorrupt := map[string]bool{}
@@ -445,6 +452,47 @@ func checkHist(tt *testing.T, c HistCase) (pbt.Info, error) {
 			body = refwire.AppendFrame(body, refwire.FlagCompressed, corrupt(op.Corrupt, op.Alg, z2, raw2))
 			req := refwire.BuildRequest(&refwire.ReqSpec{Protocol: op.Protocol, Kind: prog.Client, Codec: "proto", Encoding: op.Alg})
 			before := len(log.Snapshot())
+			if op.Overlap && op.Corrupt == "" {
+				// a second, different valid call runs completely while this one is
+				// paused inside its decompressor
+				info.Label("overlapping-valid-calls")
+				m2 := prog.Msg{N: msg.N + 500000, TLen: op.Size + 7, TSeed: 1500 + i}
+				rawB := refwire.EncodePing("proto", m2.N, m2.Text())
+				bodyB := refwire.AppendFrame(nil, refwire.FlagCompressed, comp.Compress(op.Alg, rawB))
+				gate := comp.ArmGate()
+				doneA := make(chan *memnet.Recorded, 1)
+				go func() {
+					doneA <- memnet.Serve(h, "POST", prog.Procedure(prog.Client), req.Header, bytes.NewReader(body), memnet.ServeOpts{})
+				}()
+				var recA *memnet.Recorded
+				select {
+				case <-gate.Reached:
+					recB := memnet.Serve(h, "POST", prog.Procedure(prog.Client), req.Header, bytes.NewReader(bodyB), memnet.ServeOpts{})
+					close(gate.Release)
+					recA = <-doneA
+					decB, errB := refwire.DecodeResponse(op.Protocol, prog.Client, refwire.ContentType(op.Protocol, prog.Client, "proto"), &refwire.Response{Status: recB.Status, Header: recB.Header, Body: recB.Body, Trailer: recB.Trailer})
+					if recB.Panicked || errB != nil || decB.Status.Code != 0 {
+						return info, fmt.Errorf("%s: the valid call that ran while another call was decompressing failed (panic=%v, %v, %+v) — earlier ops: %v", where, recB.Panicked, errB, statusOf(decB), c.Ops[:i])
+					}
+				case recA = <-doneA:
+					close(gate.Release)
+				}
+				comp.DisarmGate()
+				decA, errA := refwire.DecodeResponse(op.Protocol, prog.Client, refwire.ContentType(op.Protocol, prog.Client, "proto"), &refwire.Response{Status: recA.Status, Header: recA.Header, Body: recA.Body, Trailer: recA.Trailer})
+				if recA.Panicked || errA != nil || decA.Status.Code != 0 {
+					return info, fmt.Errorf("%s: the valid call that was paused in mid-decompression while another call used the pool failed (panic=%v, %v, %+v) — earlier ops: %v", where, recA.Panicked, errA, statusOf(decA), c.Ops[:i])
+				}
+				for _, call := range log.Snapshot()[before:] {
+					for _, g := range call.Received {
+						okA := g == (prog.Obs{N: msg.N, T: msg.Text()}) || g == (prog.Obs{N: msg.N + 1000, T: msg.Text()})
+						okB := g == (prog.Obs{N: m2.N, T: m2.Text()})
+						if !okA && !okB {
+							return info, fmt.Errorf("%s: overlapping calls: handler received %v which neither call sent — earlier ops: %v", where, g, c.Ops[:i])
+						}
+					}
+				}
+				continue
+			}
 			rec := memnet.Serve(h, "POST", prog.Procedure(prog.Client), req.Header, bytes.NewReader(body), memnet.ServeOpts{})
 			if rec.Panicked {
 				return info, fmt.Errorf("%s: panic %v", where, rec.PanicValue)
@@ -526,7 +574,9 @@ func genHist(t *rapid.T) HistCase {
 			Size:     rapid.SampledFrom([]int{0, 10, 600, 5000}).Draw(t, "size"),
 		}
 		if rapid.Bool().Draw(t, "corruptP") {
-			op.Corrupt = rapid.SampledFrom([]string{"header", "truncate", "checksum", "garbage", "wrongalg"}).Draw(t, "corrupt")
+			op.Corrupt = rapid.SampledFrom([]string{"header", "truncate", "checksum", "garbage", "wrongalg", "oversize"}).Draw(t, "corrupt")
+		} else if op.Side == "handler" {
+			op.Overlap = rapid.Bool().Draw(t, "overlap")
 		}
 		c.Ops = append(c.Ops, op)
 	}
@@ -535,7 +585,7 @@ func genHist(t *rapid.T) HistCase {
 
 var specHist = pbt.Spec[HistCase]{
 	Prop: "C08", Name: "pool-history", Gen: genHist, Check: checkHist,
-	Rule: "histories of 2..12 calls on ONE shared handler (synchronous ServeHTTP) and ONE shared client set (scripted responses), GOMAXPROCS=1 so pooled (de)compressors are really reused: each call carries two compressed messages, the second either valid or corrupt (mangled header, truncated stream, bad checksum, trailing garbage, compressed with another algorithm than declared) in gzip/deflate/zlib or a stateful toy codec that decodes garbage unless Reset is honoured; oracle: every valid call succeeds exactly as on fresh pools, no side ever receives a message that was not sent, corrupt calls (except trailing garbage) are not accepted; non-trivial = a valid call directly follows a corrupt one on the same side and algorithm",
+	Rule: "histories of 2..12 calls on ONE shared handler (synchronous ServeHTTP) and ONE shared client set (scripted responses), GOMAXPROCS=1 so pooled (de)compressors are really reused: each call carries two compressed messages, the second either valid or corrupt (mangled header, truncated stream, bad checksum, trailing garbage, compressed with another algorithm than declared, or valid but decompressing beyond the configured read limit) in gzip/deflate/zlib or a stateful toy codec that decodes garbage unless Reset is honoured; valid handler-side calls may be run as an overlapping pair (the second runs completely while the first is paused inside its decompressor, so a (de)compressor that sits in the pool twice is handed to both); oracle: every valid call succeeds exactly as on fresh pools, no side ever receives a message that was not sent, corrupt calls (except trailing garbage) are not accepted; non-trivial = a valid call directly follows a corrupt one on the same side and algorithm",
 }
 
 func TestPoolHistory(t *testing.T) { pbt.Run(t, specHist) }
